@@ -84,14 +84,14 @@ def _labels_from_opt(o):
 @st.composite
 def models(draw, max_bodies=3, family=None, contacts=True, sensors=True, opt_kwargs=None, mocap=True,
            actuators=True, tendons=True, equalities=True, plane=None, spread=0.6, stateful=True, min_bodies=1,
-           actearly=False, joint_types=mg.JOINT_TYPES):
+           actearly=False, joint_types=mg.JOINT_TYPES, userdata=False):
   oxml, oinfo = draw(options(**(opt_kwargs or {})))
   fam = family or draw(st.sampled_from(['A', 'A', 'B']))
   gts = SUPPORTED_GEOMS_A if fam == 'A' else SUPPORTED_GEOMS_B
   condims = (3, 4, 6) if oinfo['cone'] == 'elliptic' else (1, 3, 4, 6)
   gm = draw(mg.models(max_bodies=max_bodies, min_bodies=min_bodies, geom_types=gts, contacts=contacts, sensors=sensors,
                       opt=oxml, mocap=mocap, actuators=actuators, tendons=tendons, equalities=equalities,
-                      plane=plane, spread=spread, stateful_actuators=stateful, joint_types=joint_types,
+                      plane=plane, spread=spread, stateful_actuators=stateful, joint_types=joint_types, userdata=userdata,
                       geom_kwargs=dict(condims=condims, small=True)))
   if not actearly:
     gm.xml = gm.xml.replace(' actearly="true"', '')
@@ -296,3 +296,20 @@ def single_data(c, s):
 def index(tree, i):
   mujoco, mjx, jax, jp = mjxload.load()
   return jax.tree_util.tree_map(lambda x: np.asarray(x[i]), tree)
+
+
+# ------------------------------------------------------------------ sub-domains excluded because of reported findings
+
+def known_mjx_crash(c, gm=None):
+  """Candidate finding F2: cone=elliptic with constraint rows but no contact slot of condim>1 makes
+  solver._update_constraint index with jp.array([]) (float64) -> TypeError at trace time."""
+  mujoco, mjx, jax, jp = mjxload.load()
+  cone = int(c.mm.opt.cone)
+  return (cone == int(mujoco.mjtCone.mjCONE_ELLIPTIC) and c.dx0 is not None and c.dx0._impl.nefc > 0
+          and not np.any(np.asarray(c.dx0._impl.contact.dim) > 1))
+
+
+def get_data_roundtrips_contacts(md):
+  """io._get_contact keeps contacts with dist <= 0 only; contacts inside a positive margin are dropped by get_data."""
+  n = int(md.ncon)
+  return n == 0 or bool(np.all(np.asarray(md.contact.dist)[:n] <= 0))
